@@ -136,9 +136,9 @@ func NewCatalog() *Catalog {
 	}
 }
 
-var tmplID = regexp.MustCompile(`\{\{\s*(_?ledger\.id|_?l\.id|\.ID)\s*\}\}`)
-var tmplName = regexp.MustCompile(`\{\{\s*(_?ledger\.name|_?l\.name|\.Name)\s*\}\}`)
-var tmplBucket = regexp.MustCompile(`\{\{\s*(\.Bucket|\.Schema|current_schema)\s*\}\}`)
+var tmplID = regexp.MustCompile(`(?i)\{\{\s*(_?ledger\.id|_?l\.id|\.ID)\s*\}\}`)
+var tmplName = regexp.MustCompile(`(?i)\{\{\s*(_?ledger\.name|_?l\.name|\.Name)\s*\}\}`)
+var tmplBucket = regexp.MustCompile(`(?i)\{\{\s*(\.Bucket|\.Schema|current_schema)\s*\}\}`)
 
 // NormText replaces the template actions of both template dialects (Go text/template in
 // ledgerSetups, string concatenation in migration DO blocks) by neutral markers.
